@@ -681,26 +681,6 @@ def HeaderAt (doc : Txt) (tx : Transaction) (pre : Txt) (h : Header) : Prop :=
   pre.length = tx.date.range.stop.col - 1 ∧
   h.payee.length = runeLenB (payeeOf tx)
 
-/-- A line of the client's view is the mapper's line, or the mapper's line without the CR of a
-    CRLF line end. -/
-theorem docLines_lines (doc : Txt) (i : Nat) (ln : Txt) (h : (docLines doc)[i]? = some ln) :
-    ∃ l, (lines doc)[i]? = some l ∧ (l = ln ∨ l = ln ++ ['\r']) := by
-  simp only [docLines, List.getElem?_map, Option.map_eq_some_iff] at h
-  obtain ⟨l, hl, hs⟩ := h
-  refine ⟨l, hl, ?_⟩
-  unfold stripCR at hs
-  split at hs
-  · rename_i hcr
-    right
-    rw [← hs]
-    have hne : l ≠ [] := by intro e; simp [e] at hcr
-    have := List.dropLast_concat_getLast hne
-    rw [List.getLast?_eq_some_getLast hne] at hcr
-    simp only [Option.some.injEq] at hcr
-    rw [hcr] at this
-    exact this.symm
-  · left; exact hs
-
 open HL.Spec.HeaderG in
 /-- **The range computed for the payee starts right after the header's lead and is as long as
     the payee.** -/
@@ -767,25 +747,6 @@ def PayeesAt (doc : Txt) (j : Journal) : Prop :=
 def IsPayeeHit (lns : List Txt) (j : Journal) (h : Hit) : Prop :=
   ∃ tx ∈ j.transactions, payeeOf tx ≠ [] ∧ h = payeeHit lns tx
 
-theorem findTag_kind {tags : List Tag} {c : Cur} {h : Hit} (hh : findTagAtPosition tags c = some h) :
-    h.kind ≠ .payee := by
-  unfold findTagAtPosition at hh
-  split at hh
-  · simp at hh
-  · simp only at hh
-    split at hh <;> (simp at hh; subst hh; simp)
-
-theorem hoverPosting_kind {c : Cur} {p : Posting} {h : Hit} (hh : hoverPosting c p = some h) :
-    h.kind ≠ .payee := by
-  unfold hoverPosting at hh
-  split at hh
-  · simp at hh; subst hh; simp
-  · split at hh
-    · split at hh
-      · simp at hh; subst hh; simp
-      · exact findTag_kind hh
-    · exact findTag_kind hh
-
 /-- Hover: a payee element is the payee hit of a transaction of the journal. -/
 theorem findElement_payee {lns : List Txt} {j : Journal} {c : Cur} {h : Hit}
     (hh : findElementAtPosition lns j c = some h) (hk : h.kind = .payee) : IsPayeeHit lns j h := by
@@ -806,42 +767,6 @@ theorem findElement_payee {lns : List Txt} {j : Journal} {c : Cur} {h : Hit}
         exact absurd hk (findTag_kind hcm)
       · obtain ⟨p, _, hpp⟩ := List.exists_of_findSome?_eq_some htx
         exact absurd hk (hoverPosting_kind hpp)
-
-theorem commodityAt_kind {c : Cur} {cm : Commodity} {h : Hit} (hh : commodityAt c cm = some h) :
-    h.kind ≠ .payee := by
-  unfold commodityAt at hh
-  split at hh
-  · simp at hh; subst hh; simp
-  · simp at hh
-
-theorem defPosting_kind {c : Cur} {p : Posting} {h : Hit} (hh : defPosting c p = some h) :
-    h.kind ≠ .payee := by
-  unfold defPosting at hh
-  split at hh
-  · simp at hh; subst hh; simp
-  · obtain ⟨cm, _, hc⟩ := List.exists_of_findSome?_eq_some hh
-    exact commodityAt_kind hc
-
-theorem defDirective_kind {c : Cur} {d : Directive} {h : Hit} (hh : defDirective c d = some h) :
-    h.kind ≠ .payee := by
-  cases d with
-  | account a tags cmt sub r =>
-    simp only [defDirective] at hh
-    split at hh
-    · simp at hh; subst hh; simp
-    · simp at hh
-  | commodity cm f n sub r =>
-    simp only [defDirective] at hh
-    split at hh
-    · simp at hh; subst hh; simp [directiveCommodityHit]
-    · simp at hh
-  | price dt cm p r =>
-    simp only [defDirective] at hh
-    split at hh
-    · simp at hh; subst hh; simp [directiveCommodityHit]
-    · exact commodityAt_kind hh
-  | year y r => simp [defDirective] at hh
-  | defaultCommodity sy f r => simp [defDirective] at hh
 
 /-- Definition, references, rename, prepareRename: a payee target is the payee hit of a
     transaction of the journal. -/
